@@ -189,7 +189,8 @@ def get_compact_representation(
             _row.append(_cor_mat_row_str)
             _data.append(_row)
 
-        _representation = tabulate.tabulate(tabular_data=_data, headers=_headers, tablefmt=table_format)
+        # the numbers have been rounded above: print all of their digits (the default format would round a second time)
+        _representation = tabulate.tabulate(tabular_data=_data, headers=_headers, tablefmt=table_format, floatfmt=".16g")
         _representation = _representation.replace("\n", "\n" + line_prefix)
         _representation = line_prefix + _representation + "\n"
     except ImportError:
